@@ -70,6 +70,115 @@ theorem convert_render_trad_nat (d h m s : Option Nat) (pre : Fin 4 → List Cha
 /-- non-vacuity / reading aid: `" 1D 02 h3m 4,50 "` is such a rendering and is worth 93784.5 s -/
 example : convert [' ', '1', 'D', ' ', '0', '2', ' ', 'h', '3', 'm', ' ', '4', ',', '5', '0', ' '] = .ok (187569 / 2) := by decide +kernel
 
+/-- **ISO 8601 format**: every rendering `P[nY][nM][nD][T[nH][nM][nS]]` with whitespace in front and
+    behind, years and months zero (when present), any subset of D/H/M/S, a decimal point or comma in
+    the smallest unit present, a bare `T` allowed – converts to `86400 d + 3600 h + 60 m + s`. -/
+theorem convert_render_iso (r : IsoR) (wf : r.WF) (hfrac : fracSmallestOnly r.nums = true)
+    (hcal : ntVal r.y = 0 ∧ ntVal r.mo = 0) (hne : r.NonEmpty) :
+    convert r.text = .ok (86400 * ntVal r.d + 3600 * ntVal r.h + 60 * ntVal r.m + ntVal r.s) := by
+  rw [convert_iso_sum r wf hfrac hcal hne, scaledSum_iso]
+
+example : convert [' ', 'P', '0', 'Y', '1', 'D', 'T', '0', '2', 'H', '3', 'M', '4', ',', '5', '0', 'S', ' '] = .ok (187569 / 2) := by decide +kernel
+
+/-! ### rejections -/
+
+/-- an empty or blank string is refused ("at least one element must be present") -/
+theorem reject_blank (w : List Char) (hw : allWs w) : convert w = .error .empty := by
+  have h := matchTrad_text { post := w } ⟨nofun, nofun, nofun, nofun, hw⟩
+  have e : ({ post := w } : TradR).text = w := by simp [TradR.text, optText]
+  rw [e] at h
+  unfold convert
+  rw [h]
+  exact evalGroups_empty _ (by simp [TradR.groups, Groups.scaled, allAbsent])
+
+/-- `P` and `PT` alone (with whitespace around) are refused as well -/
+theorem reject_blank_iso (pre post : List Char) (hpre : allWs pre) (hpost : allWs post) (t : Bool) :
+    convert (pre ++ 'P' :: ((if t then ['T'] else []) ++ post)) = .error .empty := by
+  have wf : ({ pre := pre, post := post, t := t } : IsoR).WF :=
+    ⟨hpre, hpost, nofun, nofun, nofun, nofun, nofun, nofun, fun _ => ⟨rfl, rfl, rfl⟩⟩
+  have h := convert_iso_eval _ wf
+  have e : ({ pre := pre, post := post, t := t } : IsoR).text = pre ++ 'P' :: ((if t then ['T'] else []) ++ post) := by
+    cases t <;> simp [IsoR.text, IsoR.rest, IsoR.timeText, og]
+  rw [e] at h
+  rw [h]
+  exact evalGroups_empty _ (by simp [IsoR.groups, Groups.scaled, allAbsent])
+
+/-- calendar years or months other than zero are refused, whatever else the string contains -/
+theorem reject_years_months (r : IsoR) (wf : r.WF) (hcal : ntVal r.y ≠ 0 ∨ ntVal r.mo ≠ 0) :
+    ∃ e, convert r.text = .error e := by
+  apply except_error_of_not_ok
+  intro v hv
+  rw [convert_iso_eval r wf] at hv
+  obtain ⟨h1, _⟩ := evalGroups_ok_imp _ _ hv
+  obtain ⟨pre, y, mo, d, t, h, m, s, post⟩ := r
+  have ev : ∀ p : Option NumText, optVal (p.map (·.num)) = ntVal p := by
+    intro p; cases p <;> rfl
+  simp only [IsoR.groups, Groups.scaled, calOK, ev, Bool.and_true, Bool.and_eq_true, beq_iff_eq] at h1
+  rcases hcal with h | h
+  · exact h h1.2
+  · exact h h1.1
+
+/-- `P1Y`, `P2M`, `P1Y2M3DT4H` … : the simplest instances -/
+theorem reject_years_months_nat (n : Nat) (hn : n ≠ 0) (months : Bool) :
+    ∃ e, convert ('P' :: (natStr n ++ [if months then 'M' else 'Y'])) = .error e := by
+  have hv : ntVal (some (⟨natStr n, none⟩ : NumText)) ≠ 0 := by
+    simp only [ntVal, NumText.val, fracVal, digitsVal_natStr, Rat.add_zero]
+    intro h
+    exact hn (by exact_mod_cast h)
+  have wfn : OWF (some (⟨natStr n, none⟩ : NumText)) := by
+    intro t ht; cases ht; exact ⟨natStr_ne_nil _, allDigits_natStr _, trivial⟩
+  cases months with
+  | true =>
+    have := reject_years_months { mo := some ⟨natStr n, none⟩ }
+      ⟨allWs_nil, allWs_nil, nofun, wfn, nofun, nofun, nofun, nofun, fun _ => ⟨rfl, rfl, rfl⟩⟩ (Or.inr hv)
+    simpa [IsoR.text, IsoR.rest, og, NumText.text, fracText] using this
+  | false =>
+    have := reject_years_months { y := some ⟨natStr n, none⟩ }
+      ⟨allWs_nil, allWs_nil, wfn, nofun, nofun, nofun, nofun, nofun, fun _ => ⟨rfl, rfl, rfl⟩⟩ (Or.inl hv)
+    simpa [IsoR.text, IsoR.rest, og, NumText.text, fracText] using this
+
+/-- a fractional part anywhere but in the smallest unit that is present is refused
+    (traditional format; "only the smallest unit may have a fractional part") -/
+theorem reject_fraction_larger_unit (r : TradR) (wf : r.WF) (hfrac : fracSmallestOnly r.nums = false) :
+    convert r.text = .error .fraction := by
+  unfold convert
+  rw [matchTrad_text r wf]
+  simp only
+  have hbad : fracOK r.groups.scaled = false := by
+    obtain ⟨d, h, m, s, post⟩ := r
+    cases d <;> cases h <;> cases m <;> cases s <;>
+      simp_all [TradR.groups, Groups.scaled, fracOK, allNoFrac, noFrac, TradR.nums, pnum,
+        fracSmallestOnly, NumText.num]
+  unfold evalGroups
+  cases he : evalLoop ⟨0, true⟩ r.groups.scaled with
+  | ok acc =>
+    have := (evalLoop_ok_imp _ _ _ he).2.1 rfl
+    rw [hbad] at this
+    cases this
+  | error e =>
+    have : e = .fraction := by
+      apply evalLoop_error_fraction _ _ _ _ he
+      intro x hx
+      simp only [Groups.scaled, TradR.groups, List.mem_cons, List.not_mem_nil, or_false] at hx
+      rcases hx with rfl | rfl | rfl | rfl | rfl | rfl <;> simp
+    rw [this]
+
+/-- the same in the ISO format (there the refusal may also be the one for years/months) -/
+theorem reject_fraction_larger_unit_iso (r : IsoR) (wf : r.WF) (hfrac : fracSmallestOnly r.nums = false) :
+    ∃ e, convert r.text = .error e := by
+  apply except_error_of_not_ok
+  intro v hv
+  rw [convert_iso_eval r wf] at hv
+  obtain ⟨_, h2⟩ := evalGroups_ok_imp _ _ hv
+  obtain ⟨pre, y, mo, d, t, h, m, s, post⟩ := r
+  cases y <;> cases mo <;> cases d <;> cases h <;> cases m <;> cases s <;>
+    simp_all [IsoR.groups, Groups.scaled, fracOK, allNoFrac, noFrac, IsoR.nums,
+      fracSmallestOnly, NumText.num]
+
+example : convert ['1', '.', '5', 'h', '3', '0', 'm'] = .error .fraction := by decide +kernel
+example : convert ['1', '.', '5', 'h', '0', 'm'] = .error .fraction := by decide +kernel
+example : convert ['P', '1', 'Y'] = .error .calendar := by decide +kernel
+
 /-- **timestr is the inverse of convert, integers**: for every natural number of seconds and every
     separator made of whitespace, `convert(timestr(n, sep)) = n` exactly. -/
 theorem timestr_inverse_int (n : Nat) (sep : List Char) (hs : allWs sep) (prec : Nat) :
